@@ -642,6 +642,41 @@ def stacked_layer_verdict(got, want, shapes):
     return None
 
 
+def scaled_root_square(t, scalar):
+    """t = c * scalar^a * sqrt(Q) where inside Q every summand of every sum(...) carries the same power scalar^b: returns the
+    polynomial t^2 = c^2 * scalar^(2a + b) * Q' with the scalar pulled out of the sums (Q' free of it), or None when t is not of
+    that form.  (What `m * sqrt(sum((x / m)^2))` - a root taken after scaling by m - is the square root of.)"""
+    S = T.Sym(scalar)
+    if not isinstance(t, T.Poly) or len(t.terms) != 1:
+        return None
+    (mono, c), = t.terms.items()
+    a_pow, root = 0, None
+    for a, pw in mono:
+        if a == S:
+            a_pow = pw
+        elif isinstance(a, T.App) and a.op == "sqrt" and pw == 1 and root is None:
+            root = a.args[0]
+        else:
+            return None
+    if root is None:
+        return None
+    total, b_pow = T.ZERO, None
+    for m2, c2 in root.terms.items():
+        if len(m2) != 1 or m2[0][1] != 1 or not (isinstance(m2[0][0], T.App) and m2[0][0].op == "sum"):
+            return None
+        sm = m2[0][0]
+        inner = T.ZERO
+        for m3, c3 in sm.args[0].terms.items():
+            pw_s = sum(pw for a, pw in m3 if a == S)
+            if b_pow is None:
+                b_pow = pw_s
+            if pw_s != b_pow:
+                return None
+            inner = inner + T.Poly({tuple((a, pw) for a, pw in m3 if a != S): c3})
+        total = total + T.const(c2) * T.app("sum", inner, *sm.args[1:])
+    return T.const(c * c) * T.powq(T.P(S), 2 * a_pow + (b_pow or 0)) * total
+
+
 def diff_verdict(d):
     """True (pass) / False (definite) / None (undecided) from lin_diff outcome."""
     if d[0] == "equal":
